@@ -577,6 +577,8 @@ def epat_coq(e):
 
 def cond_coq(c):
     k = c[0]
+    if k == "after":
+        return cond_coq(c[2])  # the guard is applied to the value (model_term), see there
     if k == "pat":
         return cond_coq(expand(c[1]))
     if k == "seqis":
@@ -638,6 +640,8 @@ class Raises(Exception):
 def py_holds(c, o):
     """Run the condition on the object under CPython.  Returns bool, or raises Raises."""
     k = c[0]
+    if k == "after":
+        return py_holds(c[2], o)
     if k == "pat":
         try:
             return py_match(c[1], o)
@@ -707,6 +711,8 @@ def py_holds(c, o):
 def py_cond_ok(c, o):
     """The quantifier's restriction: equality with a tested literal implies equal type."""
     k = c[0]
+    if k == "after":
+        return py_cond_ok(c[1], o) and py_cond_ok(c[2], o)
     if k == "pat":
         return py_cond_ok(expand(c[1]), o)
     if k == "pand":
@@ -725,6 +731,8 @@ def py_cond_ok(c, o):
 
 def tested_of(c):
     k = c[0]
+    if k == "after":
+        return tested_of(c[1]) + tested_of(c[2])
     if k == "pat":
         return tested_of(expand(c[1]))
     if k == "pand":
@@ -971,6 +979,10 @@ def impl_api(v, c):
 
     varname = VarnameWithOrigin("x")
     val = value_value(v)
+    if c[0] == "after":
+        # an enclosing `if <guard>:` has already narrowed x
+        val = constrain_value(val, build_constraint(c[1], varname))
+        c = c[2]
     con = build_constraint(c, varname)
     out = []
     for a in (con, con.invert()):
@@ -1031,6 +1043,8 @@ def cond_src(c, defs, idx):
 
 
 def has_boolop(c):
+    if c[0] == "after":
+        return has_boolop(c[2])
     if c[0] == "pat":
         return False  # MatchOr builds the OR constraint directly (no BoolOp scope merging)
     if c[0] in ("and", "or"):
@@ -1044,6 +1058,8 @@ def simple_boolop(c):
 
 
 def leaves_of(c):
+    if c[0] == "after":
+        return leaves_of(c[1]) + leaves_of(c[2])
     if c[0] == "pat":
         return []
     if c[0] == "not":
@@ -1059,12 +1075,12 @@ def well_typed(v, c):
     the end-to-end stream (they are still checked through the constrain_value route)."""
     # inside and/or the operands see x already narrowed by the other operands (a TypeGuard or an
     # isinstance on Any replaces the type), so the tested types must fit len()/issubclass() too
-    if has_boolop(c):
+    if has_boolop(c) or c[0] == "after":
         v = tuple(v) + tuple(tested_of(c))
     for leaf in leaves_of(c):
         if leaf[0] in ("len", "rlen"):
             for b, _ in v:
-                ok = (b[0] == "typed" and b[1] in ("str", "tuple")) or b[0] == "tuple" or (b[0] == "known" and b[1][0] in ("str", "tuple"))
+                ok = b[0] == "any" or (b[0] == "typed" and b[1] in ("str", "tuple")) or b[0] == "tuple" or (b[0] == "known" and b[1][0] in ("str", "tuple"))
                 if not ok:
                     return False
         if leaf[0] == "issubclass":
@@ -1080,7 +1096,15 @@ def case_src(i, v, c):
     ann = value_src(v)
     if ann is None or not well_typed(v, c):
         return None
+    # an unannotated parameter (Any[unannotated]) instead of `x: Any` for every second Any-only case
+    param = "x" if (v == ((("any",), ()),) and i % 2 == 0) else f"x: {ann}"
     defs = []
+    if c[0] == "after":
+        g = cond_src(c[1], defs, i)
+        e = cond_src(c[2], defs, i)
+        if g is None or e is None:
+            return None
+        return "".join(defs) + f"def f_{i}({param}):\n    if {g}:\n        if {e}:\n            M1 = x\n        else:\n            M2 = x\n"
     if c[0] == "assertinst":
         body = f"    assert_is_instance(x, {c[1]})\n    M1 = x\n"
     elif c[0] == "assertis":
@@ -1098,7 +1122,7 @@ def case_src(i, v, c):
         if e is None:
             return None
         body = f"    if {e}:\n        M1 = x\n    else:\n        M2 = x\n"
-    return "".join(defs) + f"def f_{i}(x: {ann}):\n" + body
+    return "".join(defs) + f"def f_{i}({param}):\n" + body
 
 
 PRELUDE = ("from typing import Any, Literal, Type, Union\nfrom collections.abc import Mapping, Sequence\nfrom qcore.asserts import assert_is, assert_is_instance, assert_is_not\nfrom typing_extensions import TypeGuard, TypeIs\nfrom c02_universe import *\n"
@@ -1229,6 +1253,10 @@ def all_svals():
     out += [(("typed", c), ()) for c in ("list", "dict", "Sequence", "Mapping")]
     out += [(("known", ("list", (("int", 1),))), ()), (("known", ("dict", ((("str", "a"), ("int", 1)),))), ())]
     out += [(("typed", "str"), (("min", 1),)), (("tuple", ((True, "int"),)), (("max", 2),)), (("typed", "tuple"), (("min", 1), ("max", 3)))]
+    # Annotated[Any, ...], Annotated[type, ...], the members of Annotated[int | str, ...]
+    out += [(("any",), (("hasattr", "__class__"),)), (("any",), (("min", 3),)), (("any",), (("min", 1), ("max", 1))),
+            (("typed", "type"), (("hasattr", "__class__"),)), (("typed", "int"), (("hasattr", "__class__"),)), (("typed", "str"), (("hasattr", "__class__"),)),
+            (("typed", "object"), (("hasattr", "__class__"),)), (("sub", "A"), (("hasattr", "__class__"),))]
     return out
 
 
@@ -1292,6 +1320,25 @@ def gen_cond(rng, leaves, depth):
     a = gen_cond(rng, simple, depth - 1)
     b = gen_cond(rng, simple, depth - 1)
     return ("and" if r < 0.65 else "or", a, b)
+
+
+GUARDS = [("len", ">", 2), ("len", "==", 1), ("rlen", "<=", 2), ("hasattr", "__class__", True), ("typeguard", ((("typed", "int"), ()),)),
+          ("typeguard", ((("typed", "type"), ()),)), ("truthy",), ("isinstance", ("object",)), ("not", ("is", ("none",)))]
+GUARDED_VALUES = [((("any",), ()),), ((("typed", "type"), ()),), ((("typed", "object"), ()),), ((("typed", "int"), ()), (("typed", "str"), ())),
+                  ((("typed", "str"), ()),), ((("tuple", ((True, "int"),)), ()), (("typed", "str"), ())), ((("any",), ()), (("known", ("none",)), ()))]
+
+
+def guarded_cases(rng, leaves, n):
+    """multi-step sequences: an enclosing `if <guard>:` (len / hasattr / TypeGuard ... attach extensions to or replace
+    the value) followed by the condition under test"""
+    inner = [l for l in leaves if l[0] in ("isinstance", "issubclass", "typeis", "matchclass", "truthy", "is", "eq", "in", "len", "rlen", "typeguard", "hasattr")]
+    inner += [("not", l) for l in inner if l[0] in ("isinstance", "issubclass", "typeis", "is", "eq")]
+    out = []
+    for v in GUARDED_VALUES:
+        for g in GUARDS:
+            for c in (rng.sample(inner, n) if n < len(inner) else inner):
+                out.append((v, ("after", g, c)))
+    return out
 
 
 def gen_value(rng, svals):
@@ -1386,6 +1433,7 @@ def run(tier: str, replay: str | None = None):
             return not collection_sval(sv) or collection_leaf(l)
 
         cases += [((sv,), l) for sv in svals for l in leaves if tier == "thorough" or in_quick(sv, l)]
+        cases += guarded_cases(rng, leaves, 12 if tier == "quick" else 10 ** 6)
         n_rand = 500 if tier == "quick" else 25000
         for _ in range(n_rand):
             cases.append((gen_value(rng, svals), gen_cond(rng, leaves, 2)))
@@ -1419,7 +1467,8 @@ def run(tier: str, replay: str | None = None):
                      "wf && cond_ok c o && negb mi && negb sb && negb pn && negb ec && negb ss && negb ap && negb gp]) UNIV_INFO")
 
         def model_term(v, c, full):
-            return (f"(let V := {value_coq(v)} in let c := {cond_coq(c)} in "
+            vterm = f"(narrow {value_coq(v)} {cond_coq(c[1])} true)" if c[0] == "after" else value_coq(v)
+            return (f"(let V := {vterm} in let c := {cond_coq(c)} in "
                     "let Np := narrow V c true in let Nn := narrow V c false in "
                     "(Np, Nn, boolab_of V, " + (FULL_TAIL if full else "@nil N") + ", "
                     + ("(narrow_e2e V c true, narrow_e2e V c false)" if simple_boolop(c) else "(@nil sval, @nil sval)") + "))")
@@ -1588,12 +1637,20 @@ def run(tier: str, replay: str | None = None):
                     continue
                 if m is not None and out != m[0 if pol else 1]:
                     corr.append((i, f"{rname}:{pol}", sorted(map(str, out)), sorted(map(str, m[0 if pol else 1]))))
-        if m is not None and boolab[i][0] != mboolab:
+        if m is not None and c[0] != "after" and boolab[i][0] != mboolab:
             corr.append((i, "boolability", boolab[i][0], mboolab))
         # oracle
         tested = tested_of(c)
+        is_after = c[0] == "after"
         for j, (lo, o) in enumerate(zip(objs, pyobjs)):
-            inV = py_member(o, v)
+            inV0 = py_member(o, v)
+            inV = inV0
+            if is_after and inV0:
+                # the object reaches the inner `if` only when the guard holds for it
+                try:
+                    inV = py_holds(c[1], o) is True
+                except Raises:
+                    inV = False
             try:
                 h = py_holds(c, o)
             except Raises:
@@ -1601,7 +1658,7 @@ def run(tier: str, replay: str | None = None):
             if m is not None and mobj is not None:
                 mo = mobj[j]
                 mh = None if mo[1] is None else mo[1][1]
-                if mo[0] != inV or mh != h:
+                if (not is_after and mo[0] != inV) or mh != h:
                     spec_mismatch.append((i, j, (inV, h), (mo[0], mh)))
             if inV:
                 if h is None:
@@ -1617,11 +1674,13 @@ def run(tier: str, replay: str | None = None):
                     inOut = py_member(o, tuple(out))
                     if inV and h is not None and h == pol and py_cond_ok(c, o) and not inOut:
                         failing.append((i, rname, pol, j, "lost"))
-                    if inOut and not inV and not py_member(o, tested):
+                    # "never widens" is checked, like C02_narrow_no_widening, modulo the len / hasattr annotations of V
+                    # (the negative is_instance branch and the literal complements return the un-annotated value)
+                    if inOut and not inV0 and not py_member(o, tuple((b, ()) for b, _e in v)) and not py_member(o, tested):
                         failing.append((i, rname, pol, j, "widened"))
-            if inV and boolab[i][1] and not bool(o):
+            if inV0 and boolab[i][1] and not bool(o):
                 failing.append((i, "boolability", True, j, "always_true_wrong"))
-            if inV and boolab[i][2] and bool(o):
+            if inV0 and boolab[i][2] and bool(o):
                 failing.append((i, "boolability", False, j, "always_false_wrong"))
 
     def payload(i, extra):
